@@ -13,7 +13,7 @@ R3  harness/cmd/vfsdrv runs them on the REAL VFSFile next to a real primary (SQL
     records what the VFS serves and the real Replica.Restore at the reported TXID / timestamp; VfsObs.tla judges the
     observed values (verdict) and tags each verdict with the shapes its observed history matches.
 """
-import json, os, random, re, shutil, sys
+import json, os, random, re, shutil, sys, time
 from concurrent.futures import ThreadPoolExecutor
 sys.path.insert(0, os.path.dirname(os.path.dirname(os.path.abspath(__file__))))
 import vlib
@@ -41,6 +41,13 @@ WITNESS = {   # recorded witnesses (DESIGN.md section 8), as model-level schedul
     "V3": [["Write", 1], ["Compact1"], ["Open"], ["Write", 2], ["Write", 1], ["Compact1"], ["Write", 2], ["Poll"]],
     "V4": [["Open"], ["Write", 2], ["Write", 1], ["Compact1"], ["Poll"], ["Ret0"], ["Poll"], ["Write", 2], ["Compact1"], ["Poll"]],
 }
+DIRECTED = [   # level-0 gap after retention: the poll must defer to level 1 (vfs.go:2648), with and without a level-1 file in the plan
+    [["Snapshot"], ["Open"], ["Write", 2], ["Write", 1], ["Compact1"], ["Ret0"], ["Poll"], ["Write", 2], ["Poll"]],
+    [["Write", 1], ["Snapshot"], ["Open"], ["Write", 2], ["Grow", 3], ["Compact1"], ["Write", 3], ["Ret0"], ["Poll"], ["Poll"]],
+    [["Open"], ["Write", 2], ["Write", 1], ["Compact1"], ["Ret0"], ["Poll"], ["Write", 2], ["Poll"]],
+    [["Compact1"], ["Open"], ["Write", 2], ["Write", 1], ["Compact1"], ["Ret0"], ["Poll"], ["Write", 2], ["Poll"]],
+    [["Compact1"], ["Open"], ["Write", 2], ["Grow", 3], ["Write", 3], ["Compact1"], ["Write", 1], ["Ret0"], ["Poll"], ["Poll"]],
+]
 
 
 def known_ids():
@@ -100,18 +107,49 @@ def run_driver(binary, wd, name, cases, timeout):
     return out
 
 
-def judge(rep, wd, trace_path, label):
-    shutil.copyfile(trace_path, os.path.join(wd, "vfs_trace.ndjson"))
-    r = vlib.run_tlc("VfsObs", "VfsObs.cfg", wd, workers=1, timeout=1500)
-    vlib.tlc_expect_ok(r, "VfsObs")
-    if not r.ok:
-        raise vlib.MachineryError("VfsObs did not complete:\n%s" % r.out[-2000:])
-    rep.add_tlc("VfsObs(%s)" % label, r, "judge")
-    bad = {}
-    for name, l, t, i in vlib.verdicts(r.out):
-        parts = name.split("_")
-        bad.setdefault(t, []).append({"kind": parts[0], "shapes": sorted(parts[1:]), "step": i})
-    return bad
+def judge(rep, wd, trace_path, label, chunk=400):
+    """VfsObs (verdicts) and Trace_Vfs (binding) over the recorded traces, in chunks of `chunk` traces, in parallel."""
+    chunks, cur, seen = [], [], set()
+    for line in open(trace_path):
+        t = json.loads(line)["t"]
+        if t not in seen and len(seen) % chunk == 0 and cur:
+            chunks.append(cur)
+            cur = []
+        seen.add(t)
+        cur.append(line)
+    if cur:
+        chunks.append(cur)
+
+    def one(job):
+        k, mod = job
+        d = os.path.join(wd, "judge-%s-%d" % (mod, k))
+        os.makedirs(d, exist_ok=True)
+        with open(os.path.join(d, "vfs_trace.ndjson"), "w") as fh:
+            fh.writelines(chunks[k])
+        return k, mod, vlib.run_tlc(mod, mod + ".cfg", d, workers=1, timeout=2400)
+    bad, div = {}, []
+    with ThreadPoolExecutor(max(2, vlib.NCPU // 2)) as ex2:
+        for k, mod, r in ex2.map(one, [(k, m) for k in range(len(chunks)) for m in ("VfsObs", "Trace_Vfs")]):
+            if mod == "VfsObs":
+                vlib.tlc_expect_ok(r, "VfsObs")
+                if not r.ok:
+                    raise vlib.MachineryError("VfsObs did not complete:\n%s" % r.out[-2000:])
+                rep.add_tlc("VfsObs(%s/%d)" % (label, k), r, "judge")
+                for name, l, t, i in vlib.verdicts(r.out):
+                    parts = name.split("_")
+                    bad.setdefault(t, []).append({"kind": parts[0], "shapes": sorted(parts[1:]), "step": i})
+            else:
+                # binding: the observed trace replayed through Vfs.tla as it is (pos, maxTXID1, file size, page versions)
+                rep.add_tlc("Trace_Vfs(%s/%d)" % (label, k), r, "conformance of the recorded traces with the as-is model")
+                div += [{"line": int(a), "trace": int(b), "step": int(c), "op": d}
+                        for a, b, c, d in re.findall(r'<<"DIVERGENCE", (\d+), (\d+), (\d+), "(\w+)">>', r.out)]
+                if not r.ok:
+                    errs = vlib.parse_tlc_errors(r.out)
+                    if not errs:
+                        raise vlib.MachineryError("Trace_Vfs: %s\n%s" % (r.error, r.out[-2000:]))
+                    for kind, name, last in errs:
+                        div.append({"line": vlib.state_int(last, "l"), "chunk": k, "kind": kind, "name": name, "stopped": True})
+    return bad, div
 
 
 def classify(items, known):
@@ -168,9 +206,16 @@ def main():
         "a stalled poll (error) is reported in notes, not as a violation: the VFS then keeps serving its old TXID",
     ]
     wd = vlib.scratch("c18-")
+    phase, t_last = {}, [time.time()]
+
+    def mark(name):
+        phase[name] = round(time.time() - t_last[0], 1)
+        t_last[0] = time.time()
+    rep.cov["phase_wall_s"] = phase
     try:
         binary, _ = vlib.go_build("./cmd/vfsdrv", "vfsdrv", tags="vfs verif")
 
+        mark("build")
         # ---------------------------------------------------------------- R1 exhaustive
         if tier == "quick":
             guarded = [("MC_Vfs_asis_q", "as-is, MaxPg=3 MaxTx=3 MaxL1=2 lock+retention")]
@@ -183,23 +228,36 @@ def main():
                      ("MC_Vfs_fixed_tt", "repairs, MaxTx=4 retention+snapshots+time travel"),
                      ("MC_Vfs_fixed_all3", "repairs, MaxTx=3 all features")]
         single = [("MC_Vfs_v1", "V1"), ("MC_Vfs_v2", "V2"), ("MC_Vfs_v3", "V3"), ("MC_Vfs_v4", "V4")]
+        if replay_path:                 # a replay only re-runs the stored case on the real code and judges it
+            guarded, plain, single = [], [], []
 
         def tlc(name):
             d = os.path.join(wd, "mc-" + name)
             os.makedirs(d)
             return name, vlib.run_tlc("Vfs", name + ".cfg", d, workers=max(2, vlib.NCPU // 4), timeout=2400 if tier != "quick" else 600)
 
-        names = [n for n, _ in guarded + plain + single]
-        with ThreadPoolExecutor(4) as ex:
-            results = dict(ex.map(tlc, names))
+        ex = ThreadPoolExecutor(6)
+        nsim, depth, ngraph = (100, 30, 150) if tier == "quick" else (1000, 40, 2000)
+
+        def sim():
+            d = os.path.join(wd, "sim")
+            os.makedirs(d)
+            return vlib.tlc_simulate("Vfs", "Sim_Vfs.cfg", d, nsim, depth, seed)
+
+        def dump():
+            d = os.path.join(wd, "dump")
+            os.makedirs(d)
+            dot = os.path.join(d, "g.dot")
+            rd = vlib.run_tlc("Vfs", "Dump_Vfs.cfg" if tier == "quick" else "Dump_Vfs_t.cfg", d, workers=4,
+                              extra=["-dump", "dot,actionlabels", dot], timeout=1500)
+            vlib.tlc_expect_ok(rd, "dump")
+            sg, ginfo = vlib.dot_schedules(dot, cover="edges", max_schedules=None)
+            os.unlink(dot)
+            return sg, ginfo
+        fsim, fdump = (ex.submit(sim), ex.submit(dump)) if not replay_path else (None, None)
+        futs = {n: ex.submit(tlc, n) for n, _ in single + guarded + plain}     # the exhaustive runs overlap with R2 / R3
+        results = {n: futs[n].result()[1] for n, _ in single}
         model_cex = {}
-        for n, const in guarded + plain:
-            r = results[n]
-            vlib.tlc_expect_ok(r, n)
-            rep.add_tlc(n, r, const)
-            if r.violated:
-                acts = re.findall(r"State \d+: <(\w+(?:\([^)]*\))?) line", r.out)
-                rep.notes.append("model %s: %s violated by %s (design-level; reported only if reproduced on the real code)" % (n, r.violated, acts))
         for n, fid in single:
             r = results[n]
             vlib.tlc_expect_ok(r, n)
@@ -210,44 +268,66 @@ def main():
             text = r.out[r.out.index("Error: Invariant"):] if "Error: Invariant" in r.out else r.out
             sched = vlib.parse_behaviour(re.sub(r"State (\d+): <", r"\\* <", text), skip=("Initial",))
             model_cex[fid] = [s for s in sched if s and s[0] != "Initial"]
-        rep.cov["exhaustive"] = True
         rep.cov["model_counterexamples"] = {k: v for k, v in model_cex.items()}
 
+        mark("tlc_counterexamples")
         # ---------------------------------------------------------------- R2 schedules
         cases = []
         if replay_path:
             c = json.load(open(replay_path))["case"]
             cases.append({"id": 0, "cfg": c["cfg"], "sched": c["schedule"], "label": "replay", "model": c.get("model", [])})
         else:
-            nsim, depth, ngraph = (140, 30, 220) if tier == "quick" else (2500, 40, 6000)
             for fid, ms in sorted(model_cex.items()):
                 for av in ("incremental", "none"):
                     cases.append(mk_case(len(cases), ms, rnd, "model-cex-" + fid, av=av, ps=4096))
             for fid, ms in sorted(WITNESS.items()):
                 cases.append(mk_case(len(cases), ms, rnd, "witness-" + fid, av="incremental", ps=4096))
-            rs, sims = vlib.tlc_simulate("Vfs", "Sim_Vfs.cfg", wd, nsim, depth, seed)
+            for ms in DIRECTED:
+                cases.append(mk_case(len(cases), ms, rnd, "directed"))
+            rs, sims = fsim.result()
             rep.add_tlc("Sim_Vfs", rs, "MaxPg=4 MaxTx=8 MaxL1=3 all features, %d behaviours of depth %d" % (nsim, depth))
             for ms in sims:
                 if any(s[0] in ("Open", "Reopen") for s in ms):
                     cases.append(mk_case(len(cases), ms, rnd, "sim"))
-            dot = os.path.join(wd, "g.dot")
-            rd = vlib.run_tlc("Vfs", "Dump_Vfs.cfg" if tier == "quick" else "Dump_Vfs_t.cfg", wd, workers=4,
-                              extra=["-dump", "dot,actionlabels", dot], timeout=1500)
-            vlib.tlc_expect_ok(rd, "dump")
-            sg, ginfo = vlib.dot_schedules(dot, cover="edges", max_schedules=None)
-            os.unlink(dot)
+            sg, ginfo = fdump.result()
             sg = [s for s in sg if any(x[0] == "Poll" for x in s)]
             rep.cov["graph"] = dict(ginfo, schedules_with_poll=len(sg), replayed=min(len(sg), ngraph))
-            for ms in (rnd.sample(sg, ngraph) if len(sg) > ngraph else sg):
+            # half of the budget goes to paths in which a poll follows level-0 retention (files being read disappear)
+            def ret_then_poll(ms):
+                ops = [x[0] for x in ms]
+                return "Ret0" in ops and "Poll" in ops[ops.index("Ret0"):]
+            hot = [ms for ms in sg if ret_then_poll(ms)]
+            cold = [ms for ms in sg if not ret_then_poll(ms)]
+            pick = rnd.sample(hot, min(len(hot), ngraph // 2))
+            pick += rnd.sample(cold, min(len(cold), ngraph - len(pick)))
+            rep.cov["graph"]["retention_then_poll"] = len(hot)
+            for ms in pick:
                 cases.append(mk_case(len(cases), ms, rnd, "graph"))
 
+        mark("schedules")
         # ---------------------------------------------------------------- R3 real code + judge
         out = run_driver(binary, wd, "cases", cases, timeout=3000)
+        mark("driver")
         per = {}
         for line in open(out):
             e = json.loads(line)
             per.setdefault(e["t"], []).append(e)
-        bad = judge(rep, wd, out, "all")
+        bad, div = judge(rep, wd, out, "all", chunk=100 if tier == "quick" else 300)
+        rep.cov["divergences"] = len(div)
+        for d in div[:5]:
+            c = ([x for x in cases if x["id"] == d.get("trace")] or [None])[0]
+            rep.notes.append("DIVERGENCE module=Vfs %s schedule=%s" % (json.dumps(d), json.dumps(c["sched"])[:400] if c else "?"))
+        mark("judge")
+        for n, const in guarded + plain:
+            r = futs[n].result()[1]
+            vlib.tlc_expect_ok(r, n)
+            rep.add_tlc(n, r, const)
+            if r.violated:
+                acts = re.findall(r"State \d+: <(\w+(?:\([^)]*\))?) line", r.out)
+                rep.notes.append("model %s: %s violated by %s (design-level; reported only if reproduced on the real code)" % (n, r.violated, acts))
+        ex.shutdown()
+        rep.cov["exhaustive"] = True
+        mark("tlc_exhaustive_wait")
         rep.cov["traces_validated_against_impl"] = len(cases)
         rep.cov["evaluations"] = sum(1 for evs in per.values() for e in evs if e["obs"] and e["refOK"])
         noref = sum(1 for evs in per.values() for e in evs if e["obs"] and not e["refOK"])
